@@ -124,6 +124,19 @@ check("C17", "TLC model checking of PoolRules on Validation.tla + exhaustive rep
       "and validate_data_element_valuepool: offered qualifiers in pool order, accepted iff offered, unexpected flagged and reported empty, forbidden "
       "iff nothing offered or the segment is forbidden.", VAL_NOTE, "DESIGN.md 3.10, 5/C17")
 
+ASYNC_NOTE = ("Trusted: TLC; harness/plans.py (derivation of the series-parallel plan from the input = the model of where ahbicht gathers; checked against the "
+              "code at run time: the set of awaitables the code starts must be the plan's, and the pending set must match at every step); the gate driver's "
+              "quiescence detection (event loop ready queue empty twice in a row). Scenarios are small by design; each is explored exhaustively by TLC.")
+check("C12", "TLC model checking of Async.tla (all interleavings of the plan's awaitables; Assoc, OwnContext, NoLostOrDoubleStart) + deterministic gate "
+      "driver replaying TLC's schedules into the real asyncio code, comparing pending sets at every step and the final result with the no-yield run",
+      "For 12 (thorough 17) scenarios covering requirement/format evaluation with repeated keys, multi-part AHB expressions, package expansion with repeated "
+      "and nested packages, resolver+evaluation, and is_valid_expression with context-local data, TLC explores every completion order of the derived "
+      "plan and checks that positional gathering pairs every key with its own value and that every awaitable reads its own task's context; two "
+      "sensitivity configurations (completion-order slots, shared context) must produce counterexamples. The real code is then forced through every "
+      "interleaving (<=300, thorough <=3000; otherwise a transition cover plus random schedules): at each step the gated awaitables pending in "
+      "the real event loop must be exactly the specification's Pending set (labels carry the key, occurrence and the data/text the evaluator saw), "
+      "and the result must equal the result when nothing yields.", ASYNC_NOTE, "DESIGN.md 3.9, 4.3, 5/C12")
+
 NOT_BUILT = "check under construction in this session (specification module planned in DESIGN.md section 3); not claimed yet"
 
 
